@@ -17,6 +17,9 @@ POOL = [
     # a name with an upper-case letter; names spelled the other way (alt: pyscript.S1 = pyscript.s1 for HA)
     D(svc=["S3"]), D(svc=["S3"], resp="optional", ev=["e2"]), D(svc=["S3", "s1"], sf="args"), D(svc=["s1"], alt=True),
     D(svc=["S3", "s2"], st=["b"], resp="optional", alt=True),
+    # one function declaring a name twice (a declaration is a multiset of names): as arguments / stacked
+    D(svc=["s1"], sf="args", dup=["s1"]), D(svc=["s1", "s2"], ev=["e1"], resp="optional", dup=["s2"]),
+    D(svc=["S3", "s1"], st=["a"], sf="args", dup=["S3", "s1"]),
 ]
 
 
@@ -39,6 +42,10 @@ def mc_jobs(ctx):
         ("windows", {"DeclSet": "{1, 2}", "SubSet": '{"dm", "legacy"}', "Eager": "FALSE", "MaxGen": 3, "MaxSteps": 5 if q else 6,
                      "Acts": acts("define", "del", "call", "unload")}, inv, prop, None),
     ]
+    # one function declaring a name twice: counts, handler, removal of every entry; next to single declarations
+    jobs.append(("dups", {"DeclSet": "{1, 22}" if q else "{1, 22, 23}", "Ctx": '{"c1", "c2"}', "Name": '{"f"}', "MaxGen": 3, "MaxSteps": 3,
+                          "MaxDefs": 1, "Acts": acts("define", "del", "reload", "close", "call") if q else
+                          acts("define", "del", "push", "clear", "reload", "close", "call")}, inv, prop, None))
     if not q:
         jobs.append(("boot", {"DeclSet": "{1, 15}", "Ctx": '{"c1", "c2"}', "StartedSet": "{FALSE}", "MaxDefs": 2, "MaxSteps": 3,
                               "Acts": acts("boot", "reload", "fail", "define", "del", "call")}, inv, prop, None))
@@ -63,9 +70,13 @@ def mc_jobs(ctx):
     ]
     if q:       # quick tier: only the deviations still present in the code under test (every TLC run costs a JVM start);
         # the configurations of the repaired ones (known_findings.jsonl: fixed) are checked in the thorough tier
-        jobs = [j for j in jobs if not j[0].startswith("flag:") or j[0] == "flag:service-handler-not-repointed"]
+        # (round 4: every named deviation is repaired in /repo by now; the configuration "dups" and its witness take the place
+        # of the last flag configuration)
+        jobs = [j for j in jobs if not j[0].startswith("flag:")]
     for w in ("W_NoTwoDeclarers", "W_NoRefusal"):
         jobs.append((w, {"DeclSet": "{1}", "Ctx": '{"c1", "c2"}', "MaxSteps": 3, "Acts": acts("define", "del")}, [w], [], {w}))
+    w = "W_NoDuplicateDeclarationEnded"
+    jobs.append((w, {"DeclSet": "{1, 22}", "MaxSteps": 3, "Acts": acts("define", "del")}, [w], [], {w}))
     # round 3: a name spelled with an upper-case letter redeclared, then a load that fails after a @service
     w = "W_NoMixedCaseRedeclaredNorFailedLoad"
     jobs.append((w, {"DeclSet": "{17}", "Name": '{"f"}', "Ctx": '{"c1", "c2"}', "MaxSteps": 3, "Acts": acts("define", "reload", "fail")},
@@ -104,5 +115,5 @@ def main(ctx):
     sizes = {"sim": ctx.pick(6, 120), "depth": ctx.pick(8, 14), "rnd": ctx.pick(10, 150), "steps": ctx.pick(18, 40),
              "simsplit": ctx.pick(3, 6)}
     L.main_common(ctx, "C12", mc_jobs(ctx),
-                  {"MaxGen": 8, "DeclSet": "{1, 2, 3, 4, 5, 8, 11, 12, 14, 15, 17, 18, 20, 21}", "DeclSet_masked": "{1, 2, 3, 4, 5, 8, 11, 15, 17, 18}"},
+                  {"MaxGen": 8, "DeclSet": "{1, 2, 3, 4, 5, 8, 11, 12, 14, 15, 17, 18, 20, 21, 22, 23}", "DeclSet_masked": "{1, 2, 3, 4, 5, 8, 11, 15, 17, 18}"},
                   POOL, sizes)
